@@ -15,22 +15,23 @@ macro "exec_cases" : tactic => `(tactic| (
   all_goals try unfold execOther
   all_goals try unfold walkNext
   all_goals try unfold afterHint
+  all_goals try unfold applyReset
   all_goals repeat' split))
 
 /-- split a goal about `begin reg s t` -/
 macro "begin_cases" : tactic => `(tactic| (
   unfold begin
   repeat' split
-  all_goals try simp only [popOp, badOp]
+  all_goals try simp only [popOp, badOp, noteMisuse]
   all_goals try (have hbo := bindOk_spec (by assumption))
   all_goals try (have hdo := destroyOk_spec (by assumption))))
 
 theorem step_eq (cfg : Cfg) (reg : List Nat) (s : St) (t : Nat) :
-    step cfg reg s t = exec cfg reg (if s.pc t = .idle then begin reg s t else s) t := rfl
+    step cfg reg s t = exec cfg reg (if s.pc t = .idle then begin cfg reg s t else s) t := rfl
 
 /-- an invariant preserved by `begin` and by `exec` is preserved by `step` -/
 theorem step_preserves {cfg : Cfg} {reg : List Nat} {P : St → Prop}
-    (hb : ∀ s t, s.pc t = .idle → P s → P (begin reg s t)) (he : ∀ s t, P s → P (exec cfg reg s t)) :
+    (hb : ∀ s t, s.pc t = .idle → P s → P (begin cfg reg s t)) (he : ∀ s t, P s → P (exec cfg reg s t)) :
     ∀ s t, P s → P (step cfg reg s t) := by
   intro s t h
   rw [step_eq]
